@@ -18,7 +18,10 @@ RULE = (
     "levels, starting deep), heading texts assembled from words, text:s/tab/line-break, spans (nested, empty), "
     "marks, optionally links and footnotes; paragraphs, a section and a table in between; a TOC placed first / "
     "middle / last / inside a section with outline level 0-10 and use_default_styles T/F; histories: fill; "
-    "fill again; edit / insert / delete a heading; fill. One evaluation = one fill judged: index body = kept "
+    "fill again; edit / insert / delete a heading; fill; in a third of the documents a second TOC with its own "
+    "title and level, first or last, filled in between (filling one index must leave the other C14N-identical "
+    "and keep its own title); the outline level changed on the live TOC between two fills (also back to 0 = "
+    "no limit). One evaluation = one fill judged: index body = kept "
     "index-title (original title) followed by exactly one text:p per heading with level <= outline level "
     "(0 = 10), in document order, whose ODF reading is '<number> <reading of the heading>' with numbers from "
     "the outline-counter model and nothing else; a second fill leaves the TOC C14N-identical; "
@@ -132,6 +135,14 @@ def build_document(spec):
     if spec.get("table"):
         t = Table("T", 2, 1)
         body.append(t)
+    if spec.get("toc2"):
+        # another table of contents with its own title and outline level, before or after everything else
+        toc2 = TOC(title=spec["toc2"]["title"], outline_level=spec["toc2"]["outline"], name="Second index")
+        if spec["toc2"]["where"] == "first":
+            body.insert(toc2, position=0)
+        else:
+            body.append(toc2)
+        doc._vf_toc2 = toc2
     return doc, toc
 
 
@@ -154,16 +165,25 @@ def heading_classes(n):
     return k
 
 
-def judge_fill(doc, toc, spec, fill_index, use_default_styles):
+def judge_fill(doc, toc, spec, fill_index, use_default_styles, title=None, outline=None, which="toc1"):
     """-> (violations [(mechanism, detail, known)], classes)"""
+    import copy
+
     out = []
+    title = spec["title"] if title is None else title
+    outline = spec["outline"] if outline is None else outline
     body_n = c09.node(doc.body)
     toc_n = c09.node(toc)
+    others = [t for t in body_n.iter(TX + "table-of-content") if t is not toc_n]
+    others_before = [etree.tostring(copy.deepcopy(t), method="c14n") for t in others]
     toc.fill(use_default_styles=use_default_styles)
     toc_n = c09.node(toc)
-    heads = [h for h in body_n.iter(TX + "h") if toc_n not in list(h.iterancestors())]
+    for t, b in zip(others, others_before):
+        if etree.tostring(copy.deepcopy(t), method="c14n") != b:
+            out.append(("toc:filling-one-index-changed-another", {"filled": which, "other_before": b.decode()[-300:], "other_after": etree.tostring(t, encoding="unicode")[-300:]}, None))
+    heads = [h for h in body_n.iter(TX + "h") if not any(a.tag == TX + "table-of-content" for a in h.iterancestors())]
     levels = [int(h.get(TX + "outline-level") or 0) for h in heads]
-    maxl = spec["outline"] or 10
+    maxl = outline or 10
     expected = []
     flagged = []
     for i, num in outline_numbers(levels, maxl):
@@ -174,13 +194,13 @@ def judge_fill(doc, toc, spec, fill_index, use_default_styles):
         return [("toc:no-index-body", {}, None)], ("fill",)
     kids = [k for k in ib if isinstance(k.tag, str)]
     entries = kids
-    if spec["title"]:
+    if title:
         if not kids or kids[0].tag != TX + "index-title":
             out.append(("toc:title-not-kept-first", {"children": [k.tag.rpartition("}")[2] for k in kids[:3]]}, None))
         else:
             tt = " ".join(odftext.project(p) for p in kids[0].iter(TX + "p"))
-            if tt != spec["title"]:
-                out.append(("toc:title-text-changed", {"got": tt, "expected": spec["title"]}, None))
+            if tt != title:
+                out.append(("toc:title-text-changed", {"got": tt, "expected": title, "filled": which}, None))
             entries = kids[1:]
     other = [k.tag.rpartition("}")[2] for k in entries if k.tag != TX + "p"]
     if other:
@@ -198,7 +218,7 @@ def judge_fill(doc, toc, spec, fill_index, use_default_styles):
                 what = "number" if gnum != enum else "text"
                 out.append((f"toc:entry-{what}-differs", {"entry": k, "got": g, "expected": e, "levels": levels, "xml": etree.tostring(entries[k], encoding="unicode")[-300:]}, fid if what == "text" else None))
                 break
-    cls = ("fill", shape(levels), "+".join(sorted(set().union(*flagged))) if flagged else "-", f"outline={spec['outline']}", spec["toc_pos"], f"fill{fill_index}", "styles" if use_default_styles else "nostyles")
+    cls = ("fill", shape(levels), "+".join(sorted(set().union(*flagged))) if flagged else "-", f"outline={outline}", spec["toc_pos"], f"fill{fill_index}", "styles" if use_default_styles else "nostyles", which if spec.get("toc2") else "single")
     return out, cls
 
 
@@ -229,9 +249,20 @@ def run_case(spec, res):
     doc, toc = build_document(spec)
     uds = spec["use_default_styles"]
     fi = 0
+    outline = {"toc1": spec["outline"], "toc2": (spec.get("toc2") or {}).get("outline", 0)}
+    primary = toc
     for step in spec["history"]:
-        if step == "fill":
-            v, cls = judge_fill(doc, toc, spec, fi, uds)
+        if isinstance(step, list) and step[0] == "outline":
+            # the level is changed on the live index, the next fill must follow it
+            which = step[2] if spec.get("toc2") else "toc1"
+            (primary if which == "toc1" else doc._vf_toc2).outline_level = step[1]
+            outline[which] = step[1]
+            continue
+        if step in ("fill", "fill2"):
+            which = "toc2" if step == "fill2" and spec.get("toc2") else "toc1"
+            toc = primary if which == "toc1" else doc._vf_toc2
+            title = spec["title"] if which == "toc1" else spec["toc2"]["title"]
+            v, cls = judge_fill(doc, toc, spec, fi, uds, title=title, outline=outline[which], which=which)
             if res is not None:
                 res.judge()
                 res.cls(cls, True)
@@ -283,9 +314,21 @@ def gen_spec(rng):
     for _ in range(rng.randint(0, 2)):
         history.append([rng.choice(["delete", "insert", "edit"]), rng.randrange(100), gen_heading(rng)])
         history.append("fill")
+    toc2 = None
+    if rng.random() < 0.35:
+        toc2 = {"title": rng.choice(["Overview", "Second é", "Index 2"]), "outline": rng.choice([0, 1, 2, 10]), "where": rng.choice(["first", "last"])}
+        history.insert(rng.randint(0, len(history)), "fill2")
+        if rng.random() < 0.5:
+            history.append(rng.choice(["fill", "fill2"]))
+    if rng.random() < 0.4:
+        # change of the requested level between two fills (0 = no limit)
+        k = rng.randint(1, len(history))
+        history.insert(k, ["outline", rng.choice([0, 0, 1, 2, 3, 10]), rng.choice(["toc1", "toc2"])])
+        history.insert(k + 1, rng.choice(["fill", "fill2"]) if toc2 else "fill")
     if rng.random() < 0.6:
         history.append("script")
     return {
+        "toc2": toc2,
         "headings": headings,
         "title": rng.choice(["Table of Contents", "Sommaire é", "TOC"]),
         "outline": rng.choice([0, 0, 1, 2, 3, 5, 10]),
